@@ -332,21 +332,21 @@ def slices(quick):
     J1P = dict(Files='{"j1", "p"}', JobFiles='{"j1"}')
     ALL = dict(Files='{"j1", "j2", "p"}', JobFiles='{"j1", "j2"}')
     s = [
-        ("dict", dict(J1, NHJob=2, Ops="<- OpsDict", Vals="<- VTypes", NVals="<- NVTypes", MapArgs="<- MapsSmall", MaxLevel=3 if quick else 4), 0.1),
+        ("dict", dict(J1, NHJob=2, Ops="<- OpsDict", Vals="<- VTypes", NVals="<- NVTypes", MapArgs="<- MapsSmall", MaxLevel=3 if quick else 4), 0.06 if quick else 0.03),
         ("struct", dict(J1, NHJob=1, Ops='{"set", "nset", "append", "lset", "get", "read", "pop", "setdefault"}', Vals="<- VStruct", NVals="<- NVTypes",
-                        MapArgs="<- MapsSmall", MaxLevel=4 if quick else 5), 0.05),
+                        MapArgs="<- MapsSmall", MaxLevel=4 if quick else 5), 0.03),
         ("buffer", dict(J1P, NHJob=2, NHProj=1, Ops="<- OpsBuf", Vals="<- VOne", NVals="<- VOne", MapArgs="<- MapsSmall", Caps="<- CapsAll",
-                        MaxLevel=4 if quick else 5), 0.15),
+                        MaxLevel=4 if quick else 5), 0.08 if quick else 0.04),
         ("twoh", dict(J1, NHJob=2, Ops='{"set", "read", "buffer"}', Vals="<- VOne" if quick else "<- VTwo", NVals="<- VOne", MapArgs="<- MapsSmall",
-                      Caps="<- CapsNoneOnly" if quick else "<- CapsTwo", MaxLevel=6), 0.3 if quick else 0.1),
+                      Caps="<- CapsNoneOnly" if quick else "<- CapsTwo", MaxLevel=6), 0.3 if quick else 0.05),
         ("none", dict(J1, NHJob=2, Ops='{"set", "reset", "update", "read", "clear", "buffer"}', Vals="<- VNone", NVals="<- VOne", MapArgs="<- MapsNone",
-                      Caps="<- CapsNoneOnly", MaxLevel=4 if quick else 5), 0.15),
+                      Caps="<- CapsNoneOnly", MaxLevel=4 if quick else 5), 0.08 if quick else 0.04),
         ("life", dict(J1, NHJob=2, Ops="<- OpsLife", Vals="<- VOne", NVals="<- VOne", MapArgs="<- MapsSmall", Caps="<- CapsZero",
-                      MaxLevel=5 if quick else 6), 0.15),
+                      MaxLevel=5 if quick else 6), 0.08 if quick else 0.04),
     ]
     if not quick:
         s.append(("full", dict(ALL, NHJob=2, NHProj=2, Ops="<- OpsAll", Vals="<- VStruct", NVals="<- NVTypes", MapArgs="<- MapsSmall",
-                               Caps="<- CapsAll", MaxLevel=3), 0.1))
+                               Caps="<- CapsTwo", MaxLevel=3), 0.03))
     return s
 
 
@@ -469,14 +469,14 @@ def run(ctx):
     proofs = [("ops, 1 file, 2 handles", dict(Ops="<- OpsDict", Vals="<- VAll" if not ctx.quick else "<- VTypes", NVals="<- NVTypes", MapArgs="<- MapsTypes" if not ctx.quick else "<- MapsSmall",
                                               MaxLevel=4 if ctx.quick else 5)),
               ("buffering, 2 jobs + project, 2 handles each", dict(Files='{"j1", "j2", "p"}', JobFiles='{"j1", "j2"}', NHJob=2, NHProj=2, Ops="<- OpsBuf",
-                                                                   Vals="<- VOne" if ctx.quick else "<- VTwo", MapArgs="<- MapsSmall",
+                                                                   Vals="<- VOne", MapArgs="<- MapsSmall",
                                                                    Caps="<- CapsTwo" if ctx.quick else "<- CapsAll", MaxLevel=4 if ctx.quick else 5)),
               ("buffering + life cycle, 1 job, 2 handles", dict(Ops="<- OpsLife", Vals="<- VOne" if ctx.quick else "<- VTwo", Caps="<- CapsAll",
-                                                                MaxLevel=5 if ctx.quick else 7))]
+                                                                MaxLevel=5 if ctx.quick else 6))]
     if not ctx.quick:
-        proofs.append(("everything, 2 jobs + project, 2 handles each, <= 4 operations (level 5 = 4 actions)",
-                       dict(Files='{"j1", "j2", "p"}', JobFiles='{"j1", "j2"}', NHJob=2, NHProj=2, Ops="<- OpsAll", Vals="<- VStruct", NVals="<- NVTypes",
-                            MapArgs="<- MapsSmall", Caps="<- CapsAll", MaxLevel=4)))
+        proofs.append(("every operation, 2 jobs + project, 2 handles each, <= 3 actions",
+                       dict(Files='{"j1", "j2", "p"}', JobFiles='{"j1", "j2"}', NHJob=2, NHProj=2, Ops="<- OpsAll", Vals="<- VOne", NVals="<- VOne",
+                            MapArgs="<- MapsSmall", Caps="<- CapsTwo", MaxLevel=4)))
     for name, c in proofs:
         cfgt = tlc.cfg(_consts(fixed, **c), invariants=MECH + REQS + ["NoDeviation"], properties=["BufferTransparent"], constraints=["LevelBound"], view="ProofView")
         r = tlc.run(SPEC, cfg_text=cfgt, workdir=os.path.join(ctx.work, "proof"), workers=procs, coverage=False, allow_violation=False)
@@ -535,7 +535,7 @@ def run(ctx):
         for kind, v in zip(("as written", "unbuffered", "buffered"), (evs,) + variants(evs)[:2]):
             tr.append(({"script": nm, "kind": kind}, [dict(e, form=e.get("form", "")) for e in v]))
     summary["repo_scripts"] = judge_traces(ctx, validate_traces(ctx, "scripts", tr, flags, procs), "repository test script")
-    ntr = 400 if ctx.quick else 6000
+    ntr = 300 if ctx.quick else 4000
     tr = []
     for i in range(ntr):
         nj, nh = rnd.randrange(1, 4), rnd.randrange(1, 4)
